@@ -110,6 +110,7 @@ type Thread struct {
 	spinCell  string // busy-wait detection: last cell loaded without an intervening write by anyone
 	spinCount int
 	spinSeq   int
+	ops       int // shared-memory operations granted to this thread on this path
 	panicking bool
 	panicV    Value
 }
@@ -191,7 +192,7 @@ func (s *State) clone() *State {
 	}
 	n.frames = cloneFrames(s.frames)
 	for i, t := range s.threads {
-		nt := &Thread{lastClock: t.lastClock, yielded: t.yielded, panicking: t.panicking, panicV: t.panicV, spinCell: t.spinCell, spinCount: t.spinCount, spinSeq: t.spinSeq}
+		nt := &Thread{lastClock: t.lastClock, yielded: t.yielded, panicking: t.panicking, panicV: t.panicV, spinCell: t.spinCell, spinCount: t.spinCount, spinSeq: t.spinSeq, ops: t.ops}
 		if i != s.cur {
 			nt.frames = cloneFrames(t.frames)
 		}
